@@ -232,8 +232,15 @@ def run_check(prop, mod, tier, level, explanation, assumptions, trusted_base, x8
     brokenmsgs = []
     for cfgname, msg in broken:
         brokenmsgs.append('build of configuration %s failed: %s' % (cfgname, msg[:800]))
+    # a rule module may pool its rules into floor groups (C20: the obligations are the sanitizer checks that survive in the code as it is written, so their number
+    # per kind moves with every refactor; what must not shrink is the decided part of the whole corpus)
+    fgroup = getattr(mod, 'FLOOR_GROUP', None)
+    decided = {}
+    for rule_, v_ in per_rule.items():
+        g_ = fgroup(rule_) if fgroup else rule_
+        decided[g_] = decided.get(g_, 0) + v_.get(PROVED, 0) + v_.get(REFUTED, 0)
     for rule, floor in floors.items():
-        got = per_rule.get(rule, {}).get(PROVED, 0) + per_rule.get(rule, {}).get(REFUTED, 0)
+        got = decided.get(rule, 0)
         if got < floor:
             brokenmsgs.append('rule %s decided %d obligations, below the confirmed floor %d' % (rule, got, floor))
     for r in canary_bad:
